@@ -160,7 +160,7 @@ class C11(EvalFamProp):
             def attrs(b, path, depth=0):
                 if isinstance(b, dict):
                     for k in list(b.keys()):
-                        if isinstance(k, str) and k.isidentifier() and not k.startswith('__') and not hasattr(dict, k) and k not in ('ayns',) \
+                        if isinstance(b, Bunch) and isinstance(k, str) and k.isidentifier() and not k.startswith('__') and not hasattr(dict, k) and k not in ('ayns',) \
                                 and not (depth == 0 and k in ('_source', '_user_data')):
                             try:
                                 if getattr(b, k) is not b[k]:
